@@ -202,6 +202,12 @@ func init() {
 		c := m.newCell(types.Typ[types.Uint64], len(keys), "written")
 		for i, k := range keys {
 			rest := stripPrefix(k, prefix)
+			// keys of the form <8-byte id>"/" (height-indexed schedules)
+			if n := len(rest.segs); n == 2 && rest.segs[1].k == SegLit && rest.segs[1].lit == "/" {
+				rest = &BytesVal{segs: rest.segs[:1]}
+			} else if n == 1 && rest.segs[0].k == SegLit && len(rest.segs[0].lit) == 9 && rest.segs[0].lit[8] == '/' {
+				rest = &BytesVal{segs: []Seg{{k: SegLit, lit: rest.segs[0].lit[:8]}}}
+			}
 			if len(rest.segs) != 1 || rest.segs[0].k != SegBE64 {
 				if len(rest.segs) == 1 && rest.segs[0].k == SegLit && len(rest.segs[0].lit) == 8 {
 					v := uint64(0)
